@@ -21,6 +21,8 @@ import (
 //
 // ops
 //   pure  <s>            | GoCamelCase JSONCamelCase JSONSnakeCase fmclass fmout
+//   go_pure <s>          | GoCamelCase JSONCamelCase JSONSnakeCase, or "panic"  (compared with the *translated source*, Gen/StrsGo.v)
+//   go_cls <byte>        | isASCIILower isASCIIUpper isASCIIDigit as observed through the exported functions (Gen/StrsGo.v)
 //   san   <s> <table>    | GoSanitized      (table = unicode class of every non-ASCII rune of s)
 //   unique ...           | see fam_names_unique.go
 
@@ -109,10 +111,56 @@ func namesFieldMask(c *Ctx, s string) (int, string) {
 	return 0, out[1 : len(out)-1]
 }
 
+// namesCall runs one of the strs conversions; a panic (the property and the
+// theorem C42_go_strs_never_panic say there is none) is a property failure with
+// the input attached.
+func namesCall(c *Ctx, name string, f func(string) string, s string) (out string, tok string) {
+	defer func() {
+		if r := recover(); r != nil {
+			c.PropFail("C42", "strs."+name+" panics", HexB([]byte(s)))
+			out, tok = "", "panic"
+		}
+	}()
+	out = f(s)
+	return out, HexB([]byte(out))
+}
+
+// namesClasses observes the unexported byte classes through the exported
+// functions, for every byte value: JSONSnakeCase(c) has two bytes exactly when
+// isASCIIUpper(c); JSONCamelCase("_"+c) differs from c (for c != '_') exactly
+// when isASCIILower(c); GoCamelCase(c+"a") == c+"A" exactly when isASCIIDigit(c)
+// (a digit does not start a word, so the 'a' after it is capitalised; after any
+// other copied byte the inner loop copies the 'a' unchanged; '.', '_' and
+// lower-case letters are not copied as they are).
+func namesClasses(c *Ctx) {
+	for b := 0; b < 256; b++ {
+		ch := string([]byte{byte(b)})
+		upper := len(strs.JSONSnakeCase(ch)) == 2
+		lower := b != '_' && strs.JSONCamelCase("_"+ch) != ch
+		digit := strs.GoCamelCase(ch+"a") == ch+"A"
+		c.Case("names", "go_cls", []string{HexN(uint64(b))}, []string{namesBool(lower), namesBool(upper), namesBool(digit)})
+	}
+}
+
+func namesBool(b bool) string {
+	if b {
+		return "1"
+	}
+	return "0"
+}
+
+// namesSkipGo: the go_pure comparison (translated source against implementation) is
+// left out for the 64^3 three-byte strings over the full-name alphabet; the class
+// representatives up to length 5 cover every path through the three loops.
+var namesSkipGo bool
+
 func namesPure(c *Ctx, s string) {
-	cc := strs.GoCamelCase(s)
-	jc := strs.JSONCamelCase(s)
-	js := strs.JSONSnakeCase(s)
+	cc, t1 := namesCall(c, "GoCamelCase", strs.GoCamelCase, s)
+	jc, t2 := namesCall(c, "JSONCamelCase", strs.JSONCamelCase, s)
+	js, t3 := namesCall(c, "JSONSnakeCase", strs.JSONSnakeCase, s)
+XX || t2 == "panic" || t3 == "panic" {
+		return
+	}
 	cls, out := namesFieldMask(c, s)
 	c.Case("names", "pure", []string{HexB([]byte(s))},
 		[]string{HexB([]byte(cc)), HexB([]byte(jc)), HexB([]byte(js)), fmt.Sprint(cls), HexB([]byte(out))})
@@ -258,6 +306,7 @@ func famNames(c *Ctx) {
 			c.PropFail("C42", fmt.Sprintf("panic: %v", r))
 		}
 	}()
+	namesClasses(c)
 	for _, s := range namesCorpus {
 		namesPure(c, s)
 		namesSan(c, s)
@@ -279,7 +328,11 @@ func famNames(c *Ctx) {
 			namesSan(c, s)
 		}
 	})
-	namesEnum(namesIdentAlphabet, l2, func(s string) { namesPure(c, s) })
+	namesEnum(namesIdentAlphabet, l2, func(s string) {
+		namesSkipGo = len(s) >= 3
+		namesPure(c, s)
+		namesSkipGo = false
+	})
 	namesRandom(c, c.N)
 	namesUniqueCorpus(c)
 	namesUniqueRandom(c, c.N/8)
